@@ -14,6 +14,9 @@ import (
 // statement shapes Model/C22.v was written from.  String literals are holes; they and core.OutDir are
 // regenerated into Gen/FindBuildFiles.v, and the model is written against those definitions.  Any other
 // shape (a reordered rule, a changed comparison, an added or removed branch) fails closed.
+// Two places are translated rather than pinned: the loop of findOriginalTaskSet (prelude / range expression /
+// body statements, as text, interpreted by Model/C22.v task_set_ok) and the statement containsPackage executes
+// when an excluded directory comes off its queue (continue / return false / return true, Model/C22.v on_excluded).
 
 var c22ws = regexp.MustCompile(`\s+`)
 
@@ -40,6 +43,69 @@ func c22Match(what, text, template string) []string {
 		out = append(out, unquote(&ast.BasicLit{Kind: token.STRING, Value: lit}))
 	}
 	return out
+}
+
+// c22MatchStmt is c22Match with a second kind of hole: §T is one simple statement without braces (continue,
+// break, return <expr>); holes are returned in order of appearance, string literals unquoted.
+func c22MatchStmt(what, text, template string) []string {
+	tpl := strings.TrimSpace(c22ws.ReplaceAllString(template, " "))
+	q := regexp.QuoteMeta(tpl)
+	q = strings.ReplaceAll(q, "§S", "(\"(?:[^\"\\\\]|\\\\.)*\"|`[^`]*`)")
+	q = strings.ReplaceAll(q, "§T", "([^{};]*?)")
+	m := regexp.MustCompile("^" + q + "$").FindStringSubmatch(text)
+	if m == nil {
+		failShape("%s does not have the shape the C22 model was written from.\n  expected: %s\n  found:    %s", what, tpl, text)
+	}
+	out := []string{}
+	for _, h := range m[1:] {
+		h = strings.TrimSpace(h)
+		if strings.HasPrefix(h, "\"") || strings.HasPrefix(h, "`") {
+			h = unquote(&ast.BasicLit{Kind: token.STRING, Value: h})
+		}
+		out = append(out, h)
+	}
+	return out
+}
+
+func c22Stmt(fset *token.FileSet, n ast.Node) string {
+	var b bytes.Buffer
+	if err := (&printer.Config{Mode: printer.RawFormat}).Fprint(&b, fset, n); err != nil {
+		failShape("cannot print statement: %v", err)
+	}
+	return strings.TrimSpace(c22ws.ReplaceAllString(b.String(), " "))
+}
+
+// c22RangeLoop translates a function whose body ends in one `for _, x := range E { ... }` loop (possibly
+// labelled): the statements before the loop, E, and the statements of the loop body, each printed on one line.
+func c22RangeLoop(fset *token.FileSet, fd *ast.FuncDecl) (prelude []string, rangeExpr string, body []string) {
+	list := fd.Body.List
+	if len(list) == 0 {
+		failShape("%s has an empty body", fd.Name.Name)
+	}
+	prelude, body = []string{}, []string{}
+	for _, st := range list[:len(list)-1] {
+		prelude = append(prelude, c22Stmt(fset, st))
+	}
+	last := list[len(list)-1]
+	if ls, ok := last.(*ast.LabeledStmt); ok {
+		prelude = append(prelude, "label "+ls.Label.Name)
+		last = ls.Stmt
+	}
+	rs, ok := last.(*ast.RangeStmt)
+	if !ok {
+		failShape("%s does not end in a range loop", fd.Name.Name)
+	}
+	if k, ok := rs.Key.(*ast.Ident); !ok || k.Name != "_" || rs.Tok != token.DEFINE {
+		failShape("%s: the loop is not `for _, x := range ...`", fd.Name.Name)
+	}
+	if v, ok := rs.Value.(*ast.Ident); !ok || v.Name != "target" {
+		failShape("%s: the loop variable is not `target`", fd.Name.Name)
+	}
+	rangeExpr = c22Stmt(fset, rs.X)
+	for _, st := range rs.Body.List {
+		body = append(body, c22Stmt(fset, st))
+	}
+	return
 }
 
 func c22StringConst(rel, name string) string {
@@ -139,6 +205,31 @@ func init() {
 			return false }`)
 		completionsOut := m[0]
 
+		// findOriginalTaskSet (the loop that feeds every command-line label to findOriginalTask) is TRANSLATED: the
+		// statements before the loop, the range expression and the statements of the loop body are regenerated as
+		// text; Model/C22.v runs the loop only when they are the ones it interprets (task_set_ok) and the proof of
+		// task_set_exact depends on that (lemma task_set_shape).
+		prelude, rangeExpr, loopBody := c22RangeLoop(fsP, findFunc(fp, "", "findOriginalTaskSet"))
+
+		// query.containsPackage (completion of `//dir/`): the breadth-first search is pinned, except for the reaction to
+		// an excluded directory taken off the queue, which is TRANSLATED (continue / return false / return true) and
+		// interpreted by the model (Model/C22.v on_excluded; the theorem contains_package_exact needs `continue`).
+		m2 := c22MatchStmt("query.containsPackage", c22Body(fsQ, findFunc(fq, "", "containsPackage")), `{
+			dirQueue := []string{dir}
+			for len(dirQueue) > 0 {
+				dir, dirQueue = dirQueue[0], dirQueue[1:]
+				if isExcluded(config, dir) { §T }
+				infos, err := os.ReadDir(dir)
+				if err != nil { log.Fatalf(§S, err) }
+				for _, info := range infos {
+					if info.IsDir() { dirQueue = append(dirQueue, filepath.Join(dir, info.Name())) }
+					if config.IsABuildFile(info.Name()) { return true } } }
+			return false }`)
+		onExcluded := m2[0]
+		if onExcluded != "continue" && onExcluded != "return false" && onExcluded != "return true" {
+			failShape("containsPackage: the reaction to an excluded directory is %q; the translator knows continue / return false / return true", onExcluded)
+		}
+
 		// the default BUILD file names (non-Bazel workspace): setDefault(&config.Parse.BuildFileName, ...) in the else branch
 		var defaults []string
 		ast.Inspect(fc, func(n ast.Node) bool {
@@ -194,6 +285,12 @@ func init() {
 			"Definition trim_left_cutset : string := " + coqString(trimLeft) + ".\n" +
 			"Definition all_targets_name : string := " + coqString(allName) + ".\n" +
 			"Definition completions_out_dir : string := " + coqString(completionsOut) + ".\n" +
-			"Definition default_build_file_names : list string := " + coqStringList(defaults) + ".\n"
+			"Definition default_build_file_names : list string := " + coqStringList(defaults) + ".\n" +
+			"(* findOriginalTaskSet, translated: statements before the loop / range expression / loop body *)\n" +
+			"Definition task_set_prelude : list string := " + coqStringList(prelude) + ".\n" +
+			"Definition task_set_range : string := " + coqString(rangeExpr) + ".\n" +
+			"Definition task_set_body : list string := " + coqStringList(loopBody) + ".\n" +
+			"(* containsPackage, translated: what happens when an excluded directory is taken off the queue *)\n" +
+			"Definition contains_on_excluded : string := " + coqString(onExcluded) + ".\n"
 	}
 }
